@@ -105,11 +105,9 @@ pub(crate) mod __verif_gc {
         n_out
     }
 
-    //@ H kind=bounded tier=quick timeout=1800 bound="tables <= 3 entries over keys 0..=5, ts 0..=7, versions = 1..=3" oblig="sst::gc::GarbageCollector::next==retained(versions=N)"
-    #[kani::proof]
-    #[kani::unwind(6)]
-    fn collector_matches_versions_policy() {
+    fn collector_case(maxn: usize) {
         let mut ch = ArrCursor::any_sorted();
+        kani::assume(ch.n <= maxn);
         ch.pos = 0; // positioned at the first key, as collector() requires
         let number: u64 = kani::any(); kani::assume(number >= 1 && number <= 3);
         let mut want = [(0u8, 0u64); 4];
@@ -117,7 +115,7 @@ pub(crate) mod __verif_gc {
         let policy = GarbageCollectionPolicy::Versions { number: NonZeroU64::new(number).unwrap() };
         let mut gc = match policy.collector(ch, 0) { Ok(gc) => gc, Err(e) => { core::mem::forget(e); return; } };
         let mut j = 0usize;
-        while j < 5 {
+        while j < maxn + 2 {
             match gc.next() {
                 Ok(Some(kr)) => { assert!(j < n_want); assert!(kr.key.len() == 1 && kr.key[0] == want[j].0 && kr.timestamp == want[j].1); }
                 Ok(None) => { assert!(j >= n_want); }
@@ -134,8 +132,18 @@ pub(crate) mod __verif_gc {
             }
             i += 1;
         }
-        kani::cover!(n_want == 3);
-        kani::cover!(n_want == 0 && ch.n == 3);
+        kani::cover!(n_want == maxn);
+        kani::cover!(n_want == 0 && ch.n == maxn);
         core::mem::forget(gc);
     }
+
+    //@ H kind=bounded tier=quick timeout=1500 bound="tables <= 2 entries over keys 0..=5, ts 0..=7, versions = 1..=3" oblig="sst::gc::GarbageCollector::next==retained(versions=N) (n<=2)"
+    #[kani::proof]
+    #[kani::unwind(6)]
+    fn collector_matches_versions_policy() { collector_case(2); }
+
+    //@ H kind=bounded tier=thorough timeout=10800 bound="tables <= 3 entries over keys 0..=5, ts 0..=7, versions = 1..=3" oblig="sst::gc::GarbageCollector::next==retained(versions=N) (n<=3)"
+    #[kani::proof]
+    #[kani::unwind(6)]
+    fn collector_matches_versions_policy_3() { collector_case(3); }
 }
